@@ -151,14 +151,19 @@ KANI_UNITS["C20"] = dict(
     appends=[("crates/varpulis-runtime/src/persistence.rs", "__vpv_c20", "contracts/kani/c20.rs")],
     grade="K-complete", level="other", timeout=2400, harness_timeout=600,
     cell_grades={"c20_array": "K-bounded(arrays of <= 2 elements, depth 1)", "c20_str": "K-bounded(2-byte strings)"},
-    functions=["varpulis-runtime/src/persistence.rs: value_to_serializable, serializable_to_value (scalar, Str and Array arms)"],
-    explanation=("PARTIAL (value conversion layer only). For every scalar variant with full-domain payload (floats bit-for-bit, incl. NaN payloads, +-inf, -0.0) "
+    native_grade="bounded(native exhaustive enumeration: 2 event types x 5 (3) time stamps x <= 2 fields over 11 (3) values; 4 kleene_events shapes)",
+    functions=["varpulis-runtime/src/persistence.rs: value_to_serializable, serializable_to_value (scalar, Str and Array arms) (Kani)",
+               "varpulis-runtime/src/persistence.rs: From<&Event> for SerializableEvent, From<SerializableEvent> for Event, RunCheckpoint; codec.rs: serialize(Json), deserialize, is_json (native enumeration)"],
+    explanation=("PARTIAL. (1) Kani, value conversion layer: for every scalar variant with full-domain payload (floats bit-for-bit, incl. NaN payloads, +-inf, -0.0) "
                  "serializable_to_value(value_to_serializable(&v)) returns v and the intermediate SerializableValue has the matching variant and payload; 2-byte strings and arrays of "
-                 "<= 2 elements (depth 1) are bounded stand-ins. NOT decided: (0) the Map arms and the event field map (hash-map insertion is out of CBMC's reach); (a) the "
-                 "JSON / MessagePack codec and format auto-detection (serde) — so 'NaN is written as null and cannot be read back' is not decided; (b) the timestamp round trip "
-                 "(timestamp_millis -> from_timestamp_millis, which by reading truncates sub-millisecond precision) needs a symbolic DateTime and chrono arithmetic is out of "
-                 "CBMC's reach — reported as unchecked, not as a finding, because this machinery cannot exhibit it."),
-    assumptions=["Vec / Box<str> / String from std behave as specified (CBMC models them through their real implementation)"],
+                 "<= 2 elements (depth 1) are bounded. (2) Event conversion, the JSON codec with format auto-detection and run checkpoints go through serde, HashMap/IndexMap insertion and "
+                 "chrono (outside CBMC's reach, measured) and are covered by BOUNDED STAND-INS run natively: an event (unicode type and field names, whole-millisecond time stamps before "
+                 "and after the epoch, up to two fields over ints, floats, -0.0, bools, null, unicode strings, timestamps, durations, nested arrays and maps) restored from its "
+                 "SerializableEvent / from its JSON bytes equals the original; separate cells for NaN / infinite values and for sub-millisecond time stamps (see known findings); a "
+                 "RunCheckpoint with kleene_events None / Some([]) / Some([..]) is read back as written. NOT decided: whole engine checkpoints from engine states, MessagePack, "
+                 "anything beyond the enumerated events."),
+    assumptions=["Vec / Box<str> / String from std behave as specified (CBMC models them through their real implementation)",
+                 "event / codec / run-checkpoint cells: bounded native enumeration only — nothing is proved for them"],
 )
 
 KANI_UNITS["C30"] = dict(
